@@ -263,6 +263,14 @@ def native_task(task):
             res['details'][n] = {k: str(v)[:300] for k, v in info.items()}
     res['observed'] = {k: str(v)[:300] for k, v in w.samples.items()}
     res['n_clauses'] = len(w.obligations)
+    # canaries (deliberately wrong clauses) evaluated natively: one that HOLDS means the run was vacuous for that clause
+    held = []
+    for n, cond in w.canaries:
+        try:
+            if bool(cond): held.append(n)
+        except Exception:
+            pass
+    res['canaries'] = len(w.canaries); res['canaries_held'] = held
     if sampled: res['leaves'] = dict(w.leaves)
     return res
 
@@ -389,6 +397,9 @@ def run_property(prop, tier='quick', jobs=None, seed=0, only=None, write_baselin
     cross_skipped = 0
     bounded_evals = 0
     bounded_clauses = 0
+    b_canaries = 0
+    b_canaries_held = []
+    native_exceptions = 0
     for (kind, ri, idx, job), res in zip(native_jobs, native_out):
         if kind == 'bounded':
             b = b_results[ri]
@@ -397,6 +408,9 @@ def run_property(prop, tier='quick', jobs=None, seed=0, only=None, write_baselin
                 continue
             bounded_evals += 1
             bounded_clauses += res.get('n_clauses', 0)
+            b_canaries += res.get('canaries', 0)
+            for n in res.get('canaries_held', []):
+                b_canaries_held.append(f"{b['group']}/{b['cfg']['name']}/{n}")
             for n in res['failed']:
                 violations.append({'group': b['group'], 'cfg': b['cfg'], 'clause': n, 'how': 'bounded-runtime-contract',
                                    'values': job[2], 'tables': job[3], 'native': res, 'replayed': True,
@@ -428,6 +442,8 @@ def run_property(prop, tier='quick', jobs=None, seed=0, only=None, write_baselin
                 else: cross_checked += 1
                 continue
             cross_checked += 1
+            if res.get('exception') and 'no-unexpected-exception' not in r['clauses']:
+                native_exceptions += 1      # the native run of a path model raised where no symbolic path did (reported in the evidence)
             for n in res['failed']:
                 if n in job[4]:   # proved symbolically, fails natively
                     violations.append({'group': gname, 'cfg': r['cfg'], 'clause': n, 'how': 'native-crosscheck',
@@ -562,6 +578,8 @@ def run_property(prop, tier='quick', jobs=None, seed=0, only=None, write_baselin
         'bounded': [{'group': gname, 'functions': g.functions, 'inputs': sum(1 for b in b_results if b['group'] == gname),
                      'rule': g.notes} for gname, g in groups.items() if g.mode == 'B'],
         'bounded_evaluations': bounded_evals, 'bounded_clause_evaluations': bounded_clauses,
+        'bounded_canaries': b_canaries, 'bounded_canaries_that_held': b_canaries_held[:20],
+        'cross_checks_native_exception_without_symbolic_one': native_exceptions,
         'known_findings_reproduced': sorted(known_hits),
         'undecided': len(undecided),
         'functions_under_contract': functions,
